@@ -26,7 +26,7 @@ SHARDS = 16
 GRACE, SHUT = 0.4, 0.4
 HORIZON = 5.0
 
-KINDS = ["idle_keepalive", "partial_head", "inflight_short", "upload_inflight", "pipelined_behind_inflight", "pipelined_second_inflight", "h2_two_inflight", "inflight_long", "stuck_forever", "unread_response", "unread_response_halfclosed", "h2_open_stream",
+KINDS = ["idle_keepalive", "partial_head", "inflight_short", "upload_inflight", "pipelined_behind_inflight", "pipelined_second_inflight", "h2_two_inflight", "inflight_long", "stuck_forever", "unread_response", "unread_response_halfclosed", "h2_open_stream", "h2_unread_response",
          "h2_idle", "h2_fresh", "h2_reset_idle", "websocket_open"]
 
 
@@ -315,11 +315,14 @@ def run_one(case, tally):
                 s.sendall(client_preface(fb, {}) +
                           fb.headers(1, [(b":method", b"GET"), (b":scheme", b"http"), (b":path", b"/short"), (b":authority", b"h")], end_stream=True) +
                           fb.headers(3, [(b":method", b"GET"), (b":scheme", b"http"), (b":path", b"/short2"), (b":authority", b"h")], end_stream=True))
-            elif kind in ("h2_open_stream", "h2_idle", "h2_fresh", "h2_reset_idle"):
+            elif kind in ("h2_open_stream", "h2_idle", "h2_fresh", "h2_reset_idle", "h2_unread_response"):
                 fb = FrameBuilder()
                 fbs.append(fb)
                 s.sendall(client_preface(fb, {}))
-                if kind == "h2_reset_idle":
+                if kind == "h2_unread_response":
+                    # a response of several MiB stalled on the client's flow-control window (no WINDOW_UPDATE ever comes)
+                    s.sendall(fb.headers(1, [(b":method", b"GET"), (b":scheme", b"http"), (b":path", b"/big"), (b":authority", b"h")], end_stream=True))
+                elif kind == "h2_reset_idle":
                     # its only request the client gives up on (RST_STREAM) and keeps the connection: no stream is open, it is idle
                     s.sendall(fb.headers(1, [(b":method", b"GET"), (b":scheme", b"http"), (b":path", b"/stuck"), (b":authority", b"h")], end_stream=True))
                 elif kind == "h2_fresh":
@@ -332,7 +335,7 @@ def run_one(case, tally):
                 s.sendall(ws.handshake(path=b"/ws%d" % i))
                 recv_until(s, b"\r\n\r\n", timeout=1.0)
         # let the server get every request going
-        want_apps = {"upload_inflight": "/upload", "inflight_short": "/short", "pipelined_behind_inflight": "/short", "pipelined_second_inflight": "/short", "h2_two_inflight": "/short2", "inflight_long": "/long", "stuck_forever": "/stuck", "unread_response": "/big", "unread_response_halfclosed": "/big", "h2_open_stream": "/stuck", "h2_reset_idle": "/stuck"}.get(kind)
+        want_apps = {"upload_inflight": "/upload", "inflight_short": "/short", "pipelined_behind_inflight": "/short", "pipelined_second_inflight": "/short", "h2_two_inflight": "/short2", "inflight_long": "/long", "stuck_forever": "/stuck", "unread_response": "/big", "unread_response_halfclosed": "/big", "h2_open_stream": "/stuck", "h2_reset_idle": "/stuck", "h2_unread_response": "/big"}.get(kind)
         if want_apps:
             end = time.monotonic() + 2.0
             while time.monotonic() < end and sum(1 for e in tr.events if e[2] == "app" and e[3] == "start" and e[4]["scope"].get("path") == want_apps) < len(socks):
@@ -517,7 +520,8 @@ def run_one(case, tally):
         else:
             tally.inconclusive["serve-never-returned(%s/%s)" % (be, kind)] += 1
     if isinstance(h.result, tuple):
-        last = h.result[1].strip().splitlines()[-1]
+        lines = [ln.strip(" |+-") for ln in h.result[1].strip().splitlines()]
+        last = [ln for ln in lines if ln and not ln[0].isdigit()][-1]  # inside an exception group: the innermost exception
         if "LifespanTimeoutError" in last or "LifespanFailureError" in last:
             tally.notes["serve-raised:%s" % last[:60]] += 1
         else:
@@ -600,7 +604,7 @@ def run_one(case, tally):
 
 
 def _mech(kind):
-    return {"stuck_forever": "stuck-request", "unread_response": "client-not-reading", "unread_response_halfclosed": "client-not-reading-half-closed", "h2_open_stream": "stuck-h2-stream",
+    return {"stuck_forever": "stuck-request", "unread_response": "client-not-reading", "unread_response_halfclosed": "client-not-reading-half-closed", "h2_open_stream": "stuck-h2-stream", "h2_unread_response": "h2-response-stalled-on-window",
             "websocket_open": "open-websocket", "inflight_long": "request-longer-than-grace", "partial_head": "partial-head"}.get(kind, kind)
 
 
